@@ -55,6 +55,19 @@ func (f *Isqrt) Call(s *slip.Scope, args slip.List, depth int) (result slip.Obje
 		var z big.Int
 		bi, _ := (*big.Float)(ta).Sqrt((*big.Float)(ta)).Int(&z)
 		result = (*slip.Bignum)(bi)
+	case slip.Fixnum:
+		if ta < 0 {
+			slip.ArithmeticPanic(s, depth, f, args, "only non-negative values are allowed")
+		}
+		// The float64 square root is only an estimate for large values.
+		root := slip.Fixnum(math.Sqrt(float64(ta)))
+		for 0 < root && ta/root < root { // root*root > ta without overflow
+			root--
+		}
+		for root+1 <= ta/(root+1) {
+			root++
+		}
+		result = root
 	case slip.Real:
 		rv := ta.RealValue()
 		if rv < 0.0 {
